@@ -9,6 +9,7 @@ import (
 	"strings"
 	"sync"
 
+	"github.com/go-openapi/loads"
 	"github.com/go-openapi/swag"
 	yaml "gopkg.in/yaml.v3"
 )
@@ -431,6 +432,10 @@ func loadFixtureCorpus() {
 				if bad {
 					continue
 				}
+			}
+			// only documents that load are in any quantifier
+			if _, err := loads.Analyzed(json.RawMessage(b), ""); err != nil {
+				continue
 			}
 			id := "@fx:" + d[len("fixtures/"):] + "/" + name
 			corpus[id] = []byte(compactJSON(b))
